@@ -39,7 +39,7 @@ def corpus(tier, seed):
 def run(tier, seed, replay=None):
     return EL.standard_run(
         PID, tier, seed, replay, MC, corpus, nontrivial=lambda t: len(t["events"]) >= 1,
-        repo_test_rules=EL.RANKING_ALL,
+        repo_test_rules=EL.RANKING_ALL, wide={},
         role3={"quick": [dict(family="tiered", max_ballots=2, max_w=2), dict(family="veto", max_ballots=2, max_w=1)],
                "thorough": [dict(family=f, max_ballots=2, max_w=1) for f in FAMILIES] + [dict(family="veto", max_ballots=2, max_w=2)]},
         rule_text="role 1: TLC exhaustive per rule family over every profile of <=K distinct rankings of 3 candidates x every "
